@@ -310,6 +310,11 @@ CommNext(c, old, new) ==
 CommitViolation(c, old, new) ==
   \E i \in NewlyCommitted(old, new) : i \in DOMAIN c /\ c[i] # At(new.log, i)
 
+\* the same, where one of the two entries is a client operation (the only kind the state machine
+\* is handed, hence the only kind an execution of the code shows as a C01 violation)
+CommitViolationOp(c, old, new) ==
+  \E i \in NewlyCommitted(old, new) : i \in DOMAIN c /\ c[i] # At(new.log, i) /\ (c[i].k = "op" \/ At(new.log, i).k = "op")
+
 \* a node that becomes leader lacks a committed entry
 CompletenessViolation(c, s) ==
   \E i \in DOMAIN c : i > s.log.base /\ (~HasIdx(s.log, i) \/ At(s.log, i) # c[i])
@@ -329,6 +334,7 @@ Observe(n, old, new, el, c, vd, v) ==
       cast == new.vote # Nil /\ new.role # "D" /\ (new.vote # old.vote \/ new.term # old.term)
       vd2 == IF cast THEN vd \cup {<<n, new.term, new.vote>>} ELSE vd
       v2 == v \cup (IF CommitViolation(c, old, new) THEN {"StateMachineSafety"} ELSE {})
+              \cup (IF CommitViolationOp(c, old, new) THEN {"StateMachineSafetyOp"} ELSE {})
               \cup (IF becameLeader /\ CompletenessViolation(c, old) THEN {"LeaderCompleteness"} ELSE {})
               \cup (IF new.term < old.term THEN {"TermMonotone"} ELSE {})
               \cup (IF new.commit < old.commit /\ new.role # "D" /\ old.role # "D" THEN {"CommitMonotone"} ELSE {})
@@ -619,6 +625,8 @@ LogMatching ==
 \* C01 (commit = apply order in this module), C07, C08 and the monotonicity clauses are
 \* observed at the action that would break them
 NoViolation == viol = {}
+\* used when looking for attack schedules: a violation an execution of the code can show
+NoOpViolation == "StateMachineSafetyOp" \notin viol
 
 \* committed entries are on a majority of the voters' durable logs (C04, static membership)
 CommittedDurable ==
